@@ -29,6 +29,7 @@ FetchPandasAll == \E op \in {o \in Ops(st) : o.k = "pandas"} : Do(op)
 ReadDescription == \E op \in {o \in Ops(st) : o.k = "descr"} : Do(op)
 Next == Open \/ Execute \/ ExecuteFail \/ FetchOne \/ FetchMany \/ FetchManyDefault \/ FetchAll
         \/ SetArraysize \/ FetchPandasAll \/ ReadDescription
+NextWalk == \E op \in {RandomElement(Ops(st))} : Do(op)
 Spec == Init /\ [][Next]_vars
 
 \* ---- C05 on the model ----
